@@ -6,7 +6,8 @@ props = [json.loads(l)['id'] for l in open(os.path.join(V, 'properties.jsonl'))]
 checks, na = [], []
 for pid in props:
     path = os.path.join(V, 'checks', pid.lower() + '.py')
-    if not os.path.exists(path):
+    ready = open(os.path.join(V, 'checks', 'ready.txt')).read().split()
+    if not os.path.exists(path) or pid not in ready:
         na.append({'property_id': pid, 'reason': 'check not built yet (work in progress; the design in DESIGN.md §3 applies)'})
         continue
     mod = importlib.import_module('checks.' + pid.lower())
